@@ -524,6 +524,7 @@ async fn run(dir: std::path::PathBuf, cfg: Cfg, rc: RunCfg, seed: u64) -> RunOut
     // what read() answered at quiescence, per key: (found?, value id or marker timestamp); judged a second time after
     // the close against the rank-first record in the blob files
     let mut quiescent_reads: Vec<(u16, bool, u64)> = Vec::new();
+    let mut quiescent_info: BTreeMap<u16, String> = BTreeMap::new();
     for (key, cands) in top.iter() {
         let k = ArrayKey::<8>::from(key_bytes(salt, *key, 8));
         let got = s.read(&k).await;
@@ -532,6 +533,18 @@ async fn run(dir: std::path::PathBuf, cfg: Cfg, rc: RunCfg, seed: u64) -> RunOut
             Ok(ReadResult::Deleted(t)) => quiescent_reads.push((*key, false, (*t).into())),
             _ => {}
         }
+        // for the report only: the version list and the filter answer at the same moment
+        let mut info = String::new();
+        if let Ok(es) = s.read_all_with_deletion_marker(&k).await {
+            let mut v = Vec::new();
+            for e in es.iter() {
+                let ts: u64 = e.timestamp().into();
+                v.push((ts, e.is_deleted()));
+            }
+            info.push_str(&format!("read_all_with_deletion_marker (ts, marker?) = {:?}; ", v));
+        }
+        info.push_str(&format!("has_active_blob = {}; records_count_detailed = {:?}; contains = {:?}", s.has_active_blob().await, s.records_count_detailed().await, s.contains(&k).await.map(|r| format!("{:?}", r)).unwrap_or_default()));
+        quiescent_info.insert(*key, info);
         let ok = match &got {
             Ok(ReadResult::Found(b)) => cands.iter().any(|c| c.kind == 0 && b.as_ref() == value_bytes(c.val, c.size).as_slice()),
             Ok(ReadResult::Deleted(t)) => {
@@ -634,7 +647,7 @@ async fn run(dir: std::path::PathBuf, cfg: Cfg, rc: RunCfg, seed: u64) -> RunOut
             if let Some(first) = recs.iter().max_by_key(|r| (r.0, r.1, r.2)) {
                 let agrees = if first.3 { !*found && *v == first.0 } else { *found && *v == first.4 };
                 if !agrees {
-                    out.violation = Some(("quiescent-read-is-not-the-rank-first-record-on-disk".into(), format!("at quiescence read(k{}) = {} but the rank-first record of that key in the blob files is {} (ts {}, blob {}, offset {}): the order of the in-memory index differs from the order in the file, a regenerated index will answer differently", key, if *found { format!("Found(value {:#x})", v) } else { format!("Deleted({})", v) }, if first.3 { "a deletion marker".to_string() } else { format!("value {:#x}", first.4) }, first.0, first.1, first.2)));
+                    out.violation = Some(("quiescent-read-is-not-the-rank-first-record-on-disk".into(), format!("at quiescence read(k{}) = {} but the rank-first record of that key in the blob files is {} (ts {}, blob {}, offset {}): the order of the in-memory index differs from the order in the file, a regenerated index will answer differently; at the same moment: {}; all records of the key on disk (ts, blob, offset, marker?, value): {:?}", key, if *found { format!("Found(value {:#x})", v) } else { format!("Deleted({})", v) }, if first.3 { "a deletion marker".to_string() } else { format!("value {:#x}", first.4) }, first.0, first.1, first.2, quiescent_info.get(key).cloned().unwrap_or_default(), { let mut v = recs.clone(); v.sort_by_key(|r| (r.1, r.2)); v.iter().map(|r| (r.0, r.1, r.2, r.3, format!("{:#x}", r.4))).collect::<Vec<_>>() })));
                     return out;
                 }
                 out.rank_first_checked += 1;
@@ -683,6 +696,65 @@ async fn run(dir: std::path::PathBuf, cfg: Cfg, rc: RunCfg, seed: u64) -> RunOut
     out
 }
 
+/// Dedicated schedule: two creators of blobs race. A forced update of the active blob (served by the worker) is held
+/// inside the creation of its new blob file by a delay failpoint; meanwhile a client closes the active blob, creates a
+/// new one itself (which gets the next id), writes a record and closes it; then the worker installs its (older-id)
+/// blob, and a second record of the SAME key and timestamp goes there. The answers to every query before the close
+/// must equal the answers after a restart (same rank order of the two tied records in both sessions).
+async fn racing_creators_scenario(dir: std::path::PathBuf, cfg: Cfg, delay_ms: u64) -> Result<(), (String, String)> {
+    let mk = || crate::drive::builder_for(&cfg, &dir).build().map_err(|e| ("build".to_string(), format!("{:#}", e)));
+    let mut s: Storage<ArrayKey<8>> = mk()?;
+    s.init().await.map_err(|e| ("init".to_string(), format!("{:#}", e)))?;
+    let key = ArrayKey::<8>::from(key_bytes(cfg.key_salt, 1, 8));
+    let w = |v: u64| Bytes::from(value_bytes(v, 24));
+    s.write(&key, w(1), BlobRecordTimestamp::new(1)).await.map_err(|e| ("write".to_string(), format!("{:#}", e)))?;
+    tap::arm(&dir, false, false);
+    tap::set_faults(&dir, vec![tap::Fault { kinds: vec![tap::Kind::Create], suffix: ".blob".into(), nth: 0, sticky: false, action: tap::Action::Delay(delay_ms) }]);
+    // the worker starts creating the next blob (id 1) and is held inside the file creation
+    s.force_update_active_blob(|_| true).await;
+    tokio::time::sleep(Duration::from_millis(delay_ms / 4)).await;
+    // meanwhile: close, create (id 2), write, close
+    let _ = s.try_close_active_blob().await;
+    let _ = s.try_create_active_blob().await;
+    s.write(&key, w(2), BlobRecordTimestamp::new(5)).await.map_err(|e| ("write".to_string(), format!("{:#}", e)))?;
+    // the worker installs its blob now (or has done so already)
+    if !s.verif_barrier(true).await {
+        return Err(("worker-dead".into(), "worker died".into()));
+    }
+    s.write(&key, w(3), BlobRecordTimestamp::new(5)).await.map_err(|e| ("write".to_string(), format!("{:#}", e)))?;
+    let _ = s.verif_barrier(true).await;
+    let _ = tap::disarm(&dir);
+    let order_before: Vec<usize> = s.records_count_detailed().await.iter().map(|d| d.0).collect();
+    async fn snap(s: &Storage<ArrayKey<8>>, key: &ArrayKey<8>) -> (String, Vec<String>) {
+        let r = match s.read(key).await {
+            Ok(ReadResult::Found(b)) => format!("Found({:#x})", val_of_bytes(&b).unwrap_or(0)),
+            Ok(ReadResult::Deleted(t)) => format!("Deleted({})", t),
+            Ok(ReadResult::NotFound) => "NotFound".to_string(),
+            Err(e) => format!("Err({:#})", e),
+        };
+        let mut list = Vec::new();
+        if let Ok(es) = s.read_all(key).await {
+            for e in es {
+                if let Ok(rec) = e.load().await {
+                    list.push(format!("{:#x}", val_of_bytes(&rec.into_data()).unwrap_or(0)));
+                }
+            }
+        }
+        (r, list)
+    }
+    let before = snap(&s, &key).await;
+    s.close().await.map_err(|e| ("close".to_string(), format!("{:#}", e)))?;
+    let mut s2: Storage<ArrayKey<8>> = mk()?;
+    s2.init().await.map_err(|e| ("init-after-restart".to_string(), format!("{:#}", e)))?;
+    let after = snap(&s2, &key).await;
+    let order_after: Vec<usize> = s2.records_count_detailed().await.iter().map(|d| d.0).collect();
+    let _ = s2.close().await;
+    if before != after {
+        return Err(("racing-blob-creators/answers-differ-after-restart".into(), format!("a forced update of the active blob was creating its blob file ({} ms) while a client closed the active blob, created the next one, wrote value 0x2 (ts 5) and the worker then installed its blob, into which value 0x3 (ts 5) was written. Before the close: read = {}, read_all = {:?}, blobs in the order the storage lists them: {:?}; after a restart: read = {}, read_all = {:?}, blobs listed: {:?}", delay_ms, before.0, before.1, order_before, after.0, after.1, order_after)));
+    }
+    Ok(())
+}
+
 fn matrix(rng: &mut Rng, thorough: bool, n: u64) -> RunCfg {
     let clients = match n % 9 {
         0 | 1 => 8,
@@ -720,6 +792,29 @@ pub fn shard(ctx: &Ctx) -> Shard {
     let mut n = ctx.shard as u64;
     let mut probes = 0;
     while ctx.time_left() {
+        if (n / ctx.shards as u64) % 8 == 3 {
+            let mut cfg = Cfg::default_for(4, 0);
+            cfg.mt = true;
+            cfg.key_salt = rng.next();
+            cfg.bloom = (n % 2) as u8;
+            cfg.group = *rng.pick(&[2usize, 4, 8]);
+            let delay = rng.range(120, 400);
+            let dir = new_dir("c08r-");
+            let r = block_on_catch(true, racing_creators_scenario(dir.clone(), cfg.clone(), delay));
+            rm_dir(&dir);
+            n += ctx.shards as u64;
+            sh.evaluations += 1;
+            let replay = json!({"check": "c08-racing-creators", "cfg": cfg.to_json(), "delay_ms": delay});
+            match r {
+                Ok(Ok(())) => {
+                    sh.add("racing_blob_creators_scenarios", 1);
+                    sh.nontrivial.insert(fnv(format!("rc{}|{}", delay, cfg.group).as_bytes()));
+                }
+                Ok(Err((sig, d))) => sh.violation(&ctx.known, "C08", ctx.seed, &format!("C08/{}", sig), &d, replay),
+                Err(p) => sh.violation(&ctx.known, "C08", ctx.seed, "C08/racing-blob-creators/panic", &p, replay),
+            }
+            continue;
+        }
         let mut rc = matrix(&mut rng, ctx.thorough(), n);
         // the dedicated probe for the >1024-writers deadlock (kept apart so that the general exploration
         // keeps running around it): one per shard run in thorough, shard 0 only in quick
